@@ -1,18 +1,37 @@
 import VaxisModel.Model.C12Compose
-/-! F112b (C12, known finding): a `;` in `Style.HyperlinkParams` is written verbatim into
-`OSC 8 ; params ; url ST`, so the parameter field ends at that `;` and the rest becomes part of the
-URL — in the embedded emulator as in any terminal. This is the point excluded by the hypothesis
-`CellOk` (`59 ∉ dec c.style.linkParams`) of `Props.C12.emu_shows_application`; it is necessary:
-the emulator model, fed the renderer's token `osc8 "a;b" "h"` through the wire, stores the URL
-`b;h` and the parameters `a`. Replayed on the real code by the C12 harness scenario `lp-semicolon`. -/
+/-! F112b (C12; FIXED in /repo 3525279 by the C01 builder): a `;` in `Style.HyperlinkParams` was written
+verbatim into `OSC 8 ; params ; url ST`, so the parameter field ended at that `;` and the rest became part
+of the URL — in the embedded emulator as in any terminal.
+
+* `semicolon_in_params_corrupts_url` (kept): what the OLD token does — the emulator model, fed
+  `osc8 "a;b" "h"` through the wire, stores the URL `b;h` and the parameters `a`. This is why the
+  composition theorems needed the hypothesis `59 ∉ dec c.style.linkParams` (`CellOk`) until round 3.
+* `render_cuts_params_now`, `cut_params_keep_url` (round 4): the renderer model after the repair
+  (`Model.Render.lpField`) writes the parameter field up to the first `;` — the token is `osc8 "a" "h"` —
+  and the emulator model stores the URL `h` with the parameters `a`: the cell shows the URL the
+  application set. The hypothesis is gone from `CellOk`; what remains is `LpOk dec` (the byte decoding
+  maps `lpField s` to bytes without `;`), a property of the hex decoding, not of the application's cells.
+Replayed on the real code by the C12 harness scenario `lp-semicolon` (it passes now; before the repair it
+was the known finding). -/
 namespace VaxisModel.Witness.F112b
 open VaxisModel.Model.Emu VaxisModel.Model.C12Compose VaxisModel.Model.Render
 
-def dec : String → G := fun s => if s = "613b62" then [97, 59, 98] else if s = "68" then [104] else []
+def dec : String → G := fun s =>
+  if s = "613b62" then [97, 59, 98] else if s = "68" then [104] else if s = "61" then [97] else []
 
 theorem semicolon_in_params_corrupts_url :
     (match runOps Emu.init (opsOf dec (fun _ => 1) (Tok.osc8 "613b62" "68")) with
      | .ok e => decide (e.cur.st.link = [98, 59, 104] ∧ e.cur.st.linkParams = [97])
+     | .error _ => false) = true := by decide +kernel
+
+/-- The renderer model now: the OSC 8 token of the F112b cell carries the parameter field `a`. -/
+theorem render_cuts_params_now :
+    penDelta {} {} { link := "68", linkParams := "613b62" } = [Tok.osc8 "61" "68"] := by decide
+
+/-- … and the emulator model stores the application's URL with those parameters. -/
+theorem cut_params_keep_url :
+    (match runOps Emu.init ((penDelta {} {} { link := "68", linkParams := "613b62" }).flatMap (opsOf dec (fun _ => 1))) with
+     | .ok e => decide (e.cur.st.link = [104] ∧ e.cur.st.linkParams = [97])
      | .error _ => false) = true := by decide +kernel
 
 end VaxisModel.Witness.F112b
